@@ -71,6 +71,33 @@ STATIC_3 = '''### 10.4 Rules that were dropped or narrowed because they demanded
 * `C09.lines`: the representative for `map_instructions_to_lines` uses one module file plus test
   statements (a slice never mixes two instrumented files).
 * `C09` / `C01`: a finding that depends on what another interpreter version emits is an observation.
+* Textual shape rules that fired on corrected code were replaced by interpretation or role-based data flow (they would
+  have been false alarms on behaviour-preserving edits): `C15.bound-before-use` (was a match on `idx >= position`; now
+  `_find_variable_of_type` is interpreted for every position), `C17.reset-first` (was "first statement"; now "nothing before
+  the reset is a call on or with the algorithm object"), `C22.restore` (locals by role, not by name), `C27.visibility`
+  (the table is interpreted against Python's own name mangling), `C30.sink` (interpreted over sink states),
+  `C20.detached` (follows a local that holds the deep copy).
+* `C18.public-names` was reduced to what the rendered `from <sut> import ...` line needs (names are attributes of the
+  module, the alias is not among them): since repair 952f8fa the enum and exception classes that rendered code names bare
+  are imported on their own, so leaving out names the module merely imported is no longer a break (seed C18-c retired).
+* `C33.eof` (the master keeps no writer of the result pipe) is applied only while `get_result` relies on EOF: since repair
+  ffc6af8 the master watches the worker's liveness, and a leaked sending end no longer hangs it (seed C33-b retired; its two
+  self-test variants became silent twins).
+* `C12.run`: a suite runner that never clears the changed flag re-executes instead of serving stored results - nothing
+  can go stale, so the missing clear is not a C12 finding (it is one of `C35.same-executions`).
+* `C26.live-bucket` applies only to a local that receives nothing but the in-place change; a local that is returned or
+  passed on is the caller's own working copy (`get_all_generatable_types` extends a copy on purpose).
+* Observed on the unchanged tree, outside what the registered rules decide and not repaired (each needs a design decision
+  rather than a minimal patch): classes are not filtered by visibility and `ignore_methods` is not applied to constructors
+  (C27; the code documents the former as intended); classmethods are never under test (C27); `shutil.rmtree` inside the
+  isolation resolves `dir_fd`-relative names against the working directory, and `os.symlink` / `os.link` / `os.truncate`
+  are not wrapped (C29); a test case that closes `sys.__stdout__` leaves Pynguin with a closed stream, per-logger levels
+  and `disabled` flags are not restored (C30); a mutant registered with `add_mutated_version` is lost after the first
+  subprocess run unless re-added, which the mutation analysis does (C31); collections that hold a non-finite float or a
+  complex render but are not parsed back by `parse_literal`, they do evaluate (C23); the module's branch-less code object
+  is annotated on line 1 even when that line is a comment (C35); further shapes the seed parser drops - lambda statements,
+  `pytest.raises` of non-builtin, non-SUT exceptions, repeated assertions on one object that move to the binding statement
+  (C24, next to the five listed known findings).
 * Inlined comprehensions and in-place container construction (`LIST_APPEND`, `MAP_ADD`) are outside what
   the slicer's stack simulation models (`ys = [x * k for x in xs]` does not pull in the definitions of
   `xs` and `k`); the property restricts completeness to the supported fragment, so this is recorded
